@@ -51,6 +51,9 @@ fn main() {
     std::fs::write(dir.join("miss.txt"), "hay\nstraw\n").unwrap();
     std::fs::write(dir.join("big.txt"), "needle line of some length to fill the pipe quickly\n".repeat(60000)).unwrap();
     std::fs::write(dir.join("pre.sh"), "#!/bin/sh\ncat \"$1\"\n").unwrap();
+    std::fs::write(dir.join("pre_noisy.sh"), "#!/bin/sh\necho 'a warning from the preprocessor' >&2\ncat \"$1\"\n").unwrap();
+    #[cfg(unix)]
+    { use std::os::unix::fs::PermissionsExt; std::fs::set_permissions(dir.join("pre_noisy.sh"), std::fs::Permissions::from_mode(0o755)).unwrap(); }
     #[cfg(unix)]
     { use std::os::unix::fs::PermissionsExt; std::fs::set_permissions(dir.join("pre.sh"), std::fs::Permissions::from_mode(0o755)).unwrap(); }
     // a file that can be opened but not read (EIO), independent of the user's privileges
@@ -107,6 +110,8 @@ fn main() {
         if have_gzip {
             check(format!("rg {} -z needle bigz.txt.gz | <closed>", j), &run_closed_pipe(&rg, &dir, &[j, "-z", "needle", "bigz.txt.gz"], 10), 0, None, false, Some(true));
         }
+        // the command has written to its stderr AND the consumer goes away: still a quiet exit 0
+        check(format!("rg {} --pre ./pre_noisy.sh needle big.txt | <closed>", j), &run_closed_pipe(&rg, &dir, &[j, "--pre", "./pre_noisy.sh", "needle", "big.txt"], 10), 0, None, false, Some(true));
         check(format!("rg {} --files tree | <closed after 1 byte>", j), &run_closed_pipe(&rg, &dir, &[j, "--files", "tree"], 1), 0, None, false, Some(true));
     }
     let _ = std::fs::remove_dir_all(&dir);
